@@ -266,4 +266,68 @@ macro_rules! emit_h {
     };
 }
 
+// ---- long payloads: the largest base payload (31 bytes) with the string-length mutator ---------------------------
+pub const BUFLL: usize = 96;
+pub fn check_emission_long(g: &Generator, exact: usize) {
+    let olen = g.output.len();
+    assert!(olen > 2 && olen <= BUFLL, "exactly one opcode is appended per emission");
+    let mut buf = [0u8; BUFLL];
+    crate::vk_unroll!(i in [0,1,2,3,4,5,6,7,8,9,10,11,12,13,14,15,16,17,18,19,20,21,22,23,24,25,26,27,28,29,30,31,32,33,34,35,36,37,38,39,
+                            40,41,42,43,44,45,46,47,48,49,50,51,52,53,54,55,56,57,58,59,60,61,62,63,64,65,66,67,68,69,70,71,72,73,74,75,76,77,78,79,
+                            80,81,82,83,84,85,86,87,88,89,90,91,92,93,94,95] {
+        if i < olen {
+            buf[i] = g.output[i];
+        }
+    });
+    assert!(buf[0] == 0xAA && buf[1] == 0x55, "bytes emitted earlier are rewritten");
+    assert!(buf[2] == REF_OPS[exact].code, "emitted opcode is not the requested one");
+    let l = lex_with_op(&buf[..olen], 2, exact, 2);
+    assert!(l.is_some(), "appended bytes are not one well-formed opcode with a complete in-domain argument");
+    let l = l.unwrap();
+    assert!(l.end == olen, "more than one opcode (or trailing bytes) appended by one emission");
+    #[cfg(not(test))]
+    unsafe {
+        let start = l.arg_start + prefix_len(REF_OPS[exact].arg);
+        assert!(REC.calls == 1 && REC.op == exact, "stack simulation not invoked exactly once with the emitted opcode");
+        assert!(REC.some && REC.len == l.end - start, "stack simulation got a different argument than was emitted");
+    }
+}
+
+macro_rules! emit_long_h {
+    ($name:ident, $op:ident, $exact:expr, $unw:expr, $lead:expr, $mutk:expr, $dlen:expr) => {
+        #[kani::proof]
+        #[kani::unwind($unw)]
+        #[kani::stub(std::hash::RandomState::new, rs_conc)]
+        #[kani::stub(std::rc::Rc::drop_slow, rc_drop_slow_noop)]
+        #[kani::stub(Generator::process_stack_ops, c_pso)]
+        fn $name() {
+            let p = any_proto();
+            kani::assume(REF_OPS[$exact].proto <= p);
+            let mut g = Generator::new(version_of(p));
+            g.mutation_rate = any_rate();
+            install(&mut g, $mutk);
+            unsafe {
+                REC.calls = 0;
+            }
+            g.output.push(0xAA);
+            g.output.push(0x55);
+            let mut data: [u8; $dlen] = kani::any();
+            data[0] = $lead;
+            let mut u = Unstructured::new(&data);
+            let mut src = GenerationSource::Arbitrary(&mut u);
+            let r = g.emit_and_process(OpcodeKind::$op, &mut src);
+            assert!(r.is_ok(), "emission returns Ok");
+            check_emission_long(&g, $exact);
+            kani::cover!(g.output.len() > 40);
+            std::mem::forget(g);
+        }
+    };
+}
+// length byte 255: on the unchanged tree 255 % 32 = 31, the largest base payload; unwind and entropy are sized so that a
+// base payload of up to 255 bytes (should the length computation change) is still executed rather than cut off
+emit_long_h!(emit_short_binbytes_maxlen_stringlen, ShortBinBytes, I_SHORT_BINBYTES, 260, 255, 4, 272);
+emit_long_h!(emit_short_binstring_maxlen_stringlen, ShortBinString, I_SHORT_BINSTRING, 260, 255, 4, 272);
+emit_long_h!(emit_binbytes_maxlen_stringlen, BinBytes, I_BINBYTES, 260, 255, 4, 272);
+emit_long_h!(emit_short_binbytes_maxlen_none, ShortBinBytes, I_SHORT_BINBYTES, 260, 255, 0, 40);
+
 include!("gen_emit.rs");
